@@ -386,6 +386,11 @@ def check_C13(tier, seed):
         em = lambda r: {"ckpt": r.choice([1, 2, 3, 4, 6]), "batch": 1, "period": 0, "switch": r.choice(["1/8", "1/24", "1/96"]),
                         "threads": r.choice([2, 3, 4])}
         c.run(_models(tier, seed, ["mixed", "fanout", "zerodelay"], 6, 30, "small", "medium"), 5 if tier == "quick" else 14, emphasis=em)
+        # a checkpoint after every event, GVT rounds back to back, events that send nothing: the history left by one collection
+        # starts with an event directly followed by a checkpoint, and the next round's GVT is often not above that event
+        # (family backlog: a quiet LP far ahead of a GVT that a ticking LP holds down, one thread each)
+        em1 = lambda r: {"ckpt": 1, "batch": 1, "period": 0, "switch": r.choice(["1/4", "1/8", "1/24"]), "threads": 3}
+        c.run(_models(tier, seed + 3, ["backlog"], 6, 16, "medium", "medium"), 4 if tier == "quick" else 8, emphasis=em1)
         return c.finish(rule=ALLOC_RULE)
     finally:
         c.close()
